@@ -2,6 +2,8 @@
 // with the answer of a pristine twin (same bytes, fresh name) whose very first query it is.
 #include "c14a.h"
 
+#include <errno.h>
+
 #include <algorithm>
 #include <cinttypes>
 #include <functional>
@@ -256,6 +258,7 @@ Outcome exec_c14a(const C14aCase& cc, bool keep_log, Stats* stats) {
       q = civil_q(cs);
     }
     asked[i] = q;
+    errno = (i % 3 == 0) ? ERANGE : ((i % 3 == 1) ? 0 : EINVAL);   // ambient C state left by "earlier calls" must not matter
     if (c.steps[i].zone != 0) {
       // Decoy: the same kind of call on a different zone; its answer is not judged here.
       if (c.steps[i].zone == 1 && !decoy_loaded) { ld.load(shipped_bytes(c.base == "shipped:Europe/London" ? "Asia/Tokyo" : "Europe/London"), &decoy_zone, "decoy"); decoy_loaded = true; }
@@ -271,7 +274,9 @@ Outcome exec_c14a(const C14aCase& cc, bool keep_log, Stats* stats) {
       auto it = zi.want.find(key);
       if (it == zi.want.end()) {
         cctz::time_zone twin;
+        errno = 0;
         ld.load(zi.bytes, &twin, "twin");
+        errno = 0;
         ++fresh_loads;
         it = zi.want.emplace(key, run_query(twin, q)).first;
       }
